@@ -23,6 +23,7 @@ type Clause struct {
 
 type LoopSpec struct {
 	Invariants []*Clause
+	Exits      []*Clause // proved on every edge that leaves the loop for the code after it (not on returns)
 	Decreases  *Clause
 	Binds      map[string]int // name -> phi ordinal at the loop head
 	Modifies   []Expr
@@ -72,6 +73,7 @@ type CallbackSpec struct {
 	ArgNames   []string
 	Guarantees []*Clause
 	Preserves  []ModItem
+	Marks      []Expr // ghost applications g(arg) set to true at every call of the callback (boolean per-object ghost variables)
 }
 
 type SpecFunc struct {
@@ -91,6 +93,7 @@ type GhostVar struct {
 	Key  *TypeExpr // nil: global ghost; else: per-object ghost (map from ref)
 	Key2 *TypeExpr // second key (two-dimensional ghost), or nil
 	T    *TypeExpr
+	History bool // a history ghost: anybody may change it (no frame obligations; havocked by every call that is not pure)
 }
 
 type Lemma struct {
@@ -351,7 +354,7 @@ func (p *Program) parseClause(c *Contract, word, rest, src string) error {
 		c.Invariants = append(c.Invariants, cl)
 	case "callback":
 		// callback f(kv) guarantees E   |   callback f preserves items
-		m := regexp.MustCompile(`^(\w+)\s*(?:\(([^)]*)\))?\s*(guarantees|preserves)\s*(.*)$`).FindStringSubmatch(rest)
+		m := regexp.MustCompile(`^(\w+)\s*(?:\(([^)]*)\))?\s*(guarantees|preserves|marks)\s*(.*)$`).FindStringSubmatch(rest)
 		if m == nil {
 			return fmt.Errorf("bad callback clause %q", rest)
 		}
@@ -369,7 +372,13 @@ func (p *Program) parseClause(c *Contract, word, rest, src string) error {
 				cb.ArgNames = append(cb.ArgNames, strings.TrimSpace(a))
 			}
 		}
-		if m[3] == "guarantees" {
+		if m[3] == "marks" {
+			e, err := parseExpr(m[4])
+			if err != nil {
+				return err
+			}
+			cb.Marks = append(cb.Marks, e)
+		} else if m[3] == "guarantees" {
 			cl, err := mk(m[4])
 			if err != nil {
 				return err
@@ -455,6 +464,15 @@ func (p *Program) parseClause(c *Contract, word, rest, src string) error {
 				cl.Label = strconv.Itoa(len(ls.Invariants) + 1)
 			}
 			ls.Invariants = append(ls.Invariants, cl)
+		case "exit":
+			cl, err := mk(r2)
+			if err != nil {
+				return err
+			}
+			if cl.Label == "" {
+				cl.Label = strconv.Itoa(len(ls.Exits) + 1)
+			}
+			ls.Exits = append(ls.Exits, cl)
 		case "decreases":
 			cl, err := mk(r2)
 			if err != nil {
@@ -698,11 +716,16 @@ func parseTypeString(s string) (*TypeExpr, error) {
 var ghostHdr = regexp.MustCompile(`^var\s+(\w+)\s*(?:\(([^)]*)\))?\s*(.+)$`)
 
 func (p *Program) parseGhost(pkg, rest string) error {
+	history := false
+	if strings.HasPrefix(strings.TrimSpace(rest), "history ") {
+		history = true
+		rest = strings.TrimSpace(strings.TrimPrefix(strings.TrimSpace(rest), "history "))
+	}
 	m := ghostHdr.FindStringSubmatch(rest)
 	if m == nil {
 		return fmt.Errorf("bad ghost declaration %q", rest)
 	}
-	g := &GhostVar{Name: m[1], Pkg: pkg}
+	g := &GhostVar{Name: m[1], Pkg: pkg, History: history}
 	if strings.TrimSpace(m[2]) != "" {
 		ps, err := parseParams(m[2])
 		if err != nil {
